@@ -1114,6 +1114,9 @@ def get_attr_method(E, recv, name, e):
 
 
 def call_function(E, fv, args, kwargs, node):
+    if fv.ty == "any" and E.c.d.get("any_not_callable"):
+        # calling a plain value (e.g. an actor address) raises TypeError; the contract states that such values are not callable
+        raise RaiseEx("TypeError", None, node)
     if fv.ty != "fn":
         raise OutOfSubset(f"call of non-function value {fv.ty}: {U(node)[:60] if node is not None else ''}")
     kind = fv.items[0]
@@ -1219,18 +1222,16 @@ def inline(E, fn, closure, mod, selfv, args, kwargs, node, is_lambda=False):
     env = dict(closure) if closure else {}
     env.update(bind(E, fn, selfv, args, dict(kwargs), mod))
     for k_ in st.vars:
-        if k_.startswith("$"):
-            env[k_] = st.vars[k_]
+        if k_.startswith("$") or k_ in E.c.ghost:
+            env.setdefault(k_, st.vars[k_])  # ghost state and ghost parameters are visible in every frame
     saved = (st.vars, E.cur_mod, E.loop_ord)
     st.vars, E.cur_mod = env, mod
     if not is_lambda:
         # loops of an inlined callee are keyed "<name>:<k>" in the contract
         lo = {}
-        k = 0
-        for x in ast.walk(fn):
-            if isinstance(x, (ast.For, ast.While, ast.AsyncFor)):
-                lo[id(x)] = f"{fn.name}:{k}"
-                k += 1
+        loops_ = [x for x in ast.walk(fn) if isinstance(x, (ast.For, ast.While, ast.AsyncFor))]
+        for k, x in enumerate(sorted(loops_, key=lambda x: (x.lineno, x.col_offset))):
+            lo[id(x)] = f"{fn.name}:{k}"
         E.loop_ord = lo
     E.inline_depth += 1
     try:
@@ -1497,6 +1498,9 @@ def emit(E, kind, args):
     ref = E.alloc()
     st.heap.store("k.kind.i", I, ref, atom(kind))
     for j, a in enumerate(args):
+        if a is not None and a.ty == "fn" and a.items and a.items[0] == "class":
+            st.heap.store(f"k.a{j}.i", I, ref, atom("cls:" + str(a.items[1])))  # a class passed as a value (e.g. createActor(Dispatcher))
+            continue
         if a is None or a.ty == "fn" or (a.z is None and a.ty != "none"):
             continue
         if a.ty == "none":
